@@ -108,7 +108,7 @@ Definition emit_all (ids : list bytes) (tests : list (bytes * list bytes)) : byt
 (* result for one used file: (obsolete ids, new contents if rewritten) *)
 Definition examine_file (registered skipped : list bytes) (update sort : bool) (f : bytes)
   : list bytes * option bytes :=
-  let x := examine_lines registered skipped true MScan (scan f)
+  let x := examine_lines registered skipped update MScan (scan f)
              {| x_ids := []; x_obsolete := []; x_tests := [] |} in
   let has_diffs := match x_obsolete x with [] => false | _ => true end in
   let should_sort := sort && negb (is_sorted_nat (x_ids x)) in
@@ -163,7 +163,7 @@ Record clean_result := {
   cr_removed : bool                       (* summary says "removed" (else "obsolete") *)
 }.
 
-Definition clean (s : state) (sort_opt : bool) (count : nat) : state * clean_result :=
+Definition clean_run (s : state) (sort_opt : bool) (count : nat) : state * clean_result :=
   let e := s_env s in
   let del := clean_deletes e in
   let srt := clean_sorts e sort_opt in
